@@ -21,7 +21,7 @@ import (
 
 func TestVerifC07Collection(t *testing.T) {
 	secs := verifh.Sections(func(r *verifh.Rng) []verifh.Section {
-		return verifc07.Gen(r, verifh.Scale(80, 2000), "collection.Cache.Take")
+		return verifc07.Gen(r, verifh.Scale(150, 2000), "collection.Cache.Take")
 	})
 	verifc07.WriteTrace(t, secs, func(cfg verifh.Cfg) verifc07.Target {
 		// objs caches (key n of cache i arrives as 100*i+n, used as key string n on cache i); opt: the constructor's
@@ -36,6 +36,15 @@ func TestVerifC07Collection(t *testing.T) {
 				opts = append(opts, WithLimit(1000))
 			case 2:
 				opts = append(opts, WithName(fmt.Sprintf("c07-%d", i)), WithLimit(500))
+			case 3:
+				// zero limit: no lru (the empty lru cache stays)
+				opts = append(opts, WithLimit(0))
+			case 4:
+				// negative limit: no lru either
+				opts = append(opts, WithLimit(-5))
+			case 5:
+				// empty name (the default name is used), options in the other order, a repeated option
+				opts = append(opts, WithLimit(3), WithName(""), WithLimit(800))
 			}
 			cache, err := NewCache(time.Hour, opts...)
 			if err != nil {
